@@ -28,7 +28,8 @@ RULE = ('cases from one SplitMix64 state: 40% BBox3D functions (new, from_point,
         'C06 chains (0..6 elements) or arbitrary affine matrices; 10% triangles; 15% spheres (full with centre, partial with z clips '
         'inside/at/beyond the radius, phi_max, optional transform chain, rare invalid arguments); 15% cylinders (new_transformed, '
         'and new(p0,p1,r)); for each primitive 6-10 rays aimed around its bounds, hits of intersect, simple_intersect and the local '
-        'variants recorded; non-trivial = not from_point/max_extent/surface_area and operands well formed; distinct = distinct input bits')
+        'variants recorded; non-trivial = not from_point/max_extent/surface_area and operands well formed; distinct = distinct input bits; '
+        'thorough tier: also 6000 cases of the f32 build (correspondence only, no oracle)')
 ASSUMPTIONS = [
     'Coq 8.16.1 kernel + vm_compute; order lemmas proved for any instance whose comparisons form a total order on the values '
     'involved (reals; finite Flocq floats of every format); containment under transforms and of primitive surfaces proved on the real instance; '
@@ -37,6 +38,9 @@ ASSUMPTIONS = [
     'no NaN among the eight computed corner images (overflow to an infinity allowed)',
     'model = code: bbox3d.rs, transform_bbox/inv_transform_bbox and the bounds()/world_bounds() of triangle, sphere, cylinder '
     'checked bit-for-bit on primitive floats (matrices read through the hook; Cylinder3D::new passes through libm, its transform is read back)',
+    'f32 build (thorough tier): the same runner text instantiated on the binary32 instance (module C15f32 of Run/C15.v on NumF32fast, proved equal to the '
+    'Flocq-rounded NumF32 in Run/FastNum32Proof.v) against the harness built with --features float, bit for bit; CORRESPONDENCE ONLY: the exact-rational '
+    'oracle does not judge f32 cases',
     'hits are the crate\'s own; their containment is sampled by the exact-rational oracle (float vs exact evaluation is not proved)',
 ]
 THEOREMS = ['C15_new_normalises', 'C15_union_contains_both', 'C15_union_point_contains_box_and_point', 'C15_intersection_contained_in_both',
@@ -56,10 +60,15 @@ U = Fr(1, 2 ** 53)
 def streams(tier):
     if tier == 'quick': return [Stream('C15', 3000)]
     if tier == 'search': return [Stream('C15', 20000)]
-    return [Stream('C15', 40000), Stream('C15', 12000, release=True)]
+    # f32 build (thorough tier): correspondence only, the oracle does not judge f32 cases
+    return [Stream('C15', 40000), Stream('C15', 12000, release=True), Stream('C15', 6000, f32=True)]
+
+def is_f32(c, st=None):
+    """cases of the f32 build carry "f32": true (harness/src/c15.rs); the stream flag says the same"""
+    return bool(c.get('f32') or (st is not None and getattr(st, 'f32', False)))
 
 def fls(c, key, st):
-    fm = Fmt(st.f32 if st is not None else False)
+    fm = Fmt(is_f32(c, st))
     return [fm.fl(b) for b in c[key]]
 
 def wf(b): return all(finite(x) for x in b) and all(b[k] <= b[3 + k] for k in range(3))
@@ -120,6 +129,8 @@ def box_image_check(m, src, dst, seed, what):
     return None
 
 def oracle(c, st):
+    # f32 build: correspondence only (the rounding allowances 8u / 16u below are written with u = 2^-53)
+    if is_f32(c, st): return None
     k, op = c['kind'], c['op']
     i, o = fls(c, 'in', st), fls(c, 'out', st)
     if not all(finite(x) for x in i): return None
@@ -218,7 +229,7 @@ def oracle(c, st):
         if f: return f
     # ---- hits
     for h in c.get('hits', []):
-        fm = Fmt(st.f32 if st is not None else False)
+        fm = Fmt(is_f32(c, st))
         p = [fm.fl(b) for b in h['p']]; ho = [fm.fl(b) for b in h['o']]
         if not all(finite(x) for x in p + ho): continue
         P = Q3(p)
